@@ -136,6 +136,19 @@ func (g *sim) genChange(t int) string {
 	seen := map[string]bool{}
 	var parts, inReq []string
 	var inReqDel []bool
+	if g.p.Deletes && !g.clean && g.r.Chance(1, 6) {
+		// a node and a node beneath it deleted by one request (the order in which the change map is
+		// walked must not matter)
+		pairs := [][2]string{{"/a", "/a/b"}, {"/a", "/a/d"}, {"/a", "/a/bc"}, {"/x", "/x/y"}, {"/l", "/l[k=1]"}, {"/l", "/l[k=1]/x"}, {"/l[k=1]", "/l[k=1]/x"}}
+		pr := pairs[g.r.Intn(len(pairs))]
+		for _, p := range pr {
+			seen[p] = true
+			inReq, inReqDel = append(inReq, p), append(inReqDel, true)
+			parts = append(parts, fmt.Sprintf("%s=-:d:0", hx(p)))
+		}
+		g.tags["nested-deletes"] = true
+		n = len(parts) + g.r.Intn(2)
+	}
 	for i := 0; i < n*3 && len(parts) < n; i++ {
 		del := g.p.Deletes && g.r.Chance(1, 3)
 		var p string
